@@ -20,14 +20,14 @@ promptness is not modelled: "promptly" = within a bounded number of the caller's
 
 clause → theorem
 * no hang: a blocked caller always has a live sender that the
-  reader will use ............................................... `no_orphan_waiter` (needs shutdown-before-drain and
+  reader will use ............................................... `no_orphan_waiter` (needs a good fail-all order and
                                                                   register-before-write: `source_orders`)
 * after the failure path ran, nobody is blocked ................. `reader_done_no_blocked`, `reader_done_pending_unwritten`,
                                                                   `quiescent_pending_empty`
 * every call in flight returns an error (never a late response) . `in_flight_calls_get_errors`, `failure_is_permanent`
 * a call registering after the drain fails at its write ......... `late_caller_fails`; counter-example for the other
                                                                   order: `late_caller_hangs_if_drain_first`
-* every later call returns an error without blocking ............ `later_calls_error`, `call_rank_decreases`
+* every later call returns an error without blocking ............ `later_calls_error`, `unregistered_call_fails`, `call_rank_decreases`
 * subscriber sees end-of-stream ................................. `subscriber_eof` (`ws_takes_notify_sender`)
 * timeout / cancellation leave nothing behind ................... `timeout_no_residue`, `cancel_no_residue`,
                                                                   `returned_call_has_no_entry` (`removal_facts`)
@@ -44,10 +44,11 @@ def Blocked (s : State) (c : Nat) : Prop :=
   (s.calls c).pc = .active ∧ (s.calls c).wrote = true ∧ (s.calls c).chan = []
 
 /-- What the proofs need from the source, re-extracted on every run: in all three clients
-`fail_all_pending` shuts the writer before it drains the map (and does drain it), and the call path
-registers before it writes. -/
+`fail_all_pending` drains the map, and every drain happens when late callers can no longer get through
+(`goodOrder`: the writer is already shut, or the same critical section marks the connection failed so
+that later registrations are refused — `closeAndDrain`), and the call path registers before it writes. -/
 theorem source_orders :
-    ∀ cfg ∈ Gen.Mux.all, shutBeforeDrain cfg.failOrder = true ∧ cfg.regBeforeWrite = true ∧
+    ∀ cfg ∈ Gen.Mux.all, goodOrder false false cfg.failOrder = true ∧ cfg.regBeforeWrite = true ∧
       FailStep.sendErrors ∈ cfg.failOrder := by decide
 
 /-- Timeout path, guard `Drop` and failed write all remove the entry (re-extracted). -/
@@ -67,7 +68,7 @@ theorem model_premises : ∀ cfg ∈ Gen.Mux.all, cfg.matchRemoves = true ∧ cf
 callers, reader and failure path — a blocked caller's sender is alive: it is in the pending map and
 the reader has not yet done its last drain (so it will be matched or drained), or the reader holds
 it (matched and about to deliver / drained and about to fail it). -/
-theorem no_orphan_waiter (cfg : Cfg) (hsbd : shutBeforeDrain cfg.failOrder = true) (hrbw : cfg.regBeforeWrite = true)
+theorem no_orphan_waiter (cfg : Cfg) (hgo : goodOrder false false cfg.failOrder = true) (hrbw : cfg.regBeforeWrite = true)
     (s : State) (hs : Reachable cfg s) (c : Nat) (hb : Blocked s c) :
     ((s.calls c).id ∈ ids s.pending ∧ ¬ PostDrain s) ∨ (s.calls c).id ∈ ids (heldEntries s) := by
   obtain ⟨hpc, hw, hch⟩ := hb
@@ -79,7 +80,7 @@ theorem no_orphan_waiter (cfg : Cfg) (hsbd : shutBeforeDrain cfg.failOrder = tru
     have ho := hI.ownP _ hd
     have hdc := hI.inj d c ho.1 (by rw [hpc]; simp) ho.2.1
     subst hdc
-    have := (hs.dinv hsbd hrbw).unwritten hp _ hd
+    have := (hs.dinv hgo hrbw).unwritten hp _ hd
     rw [hw] at this; cases this
   · right; exact ht
 
@@ -88,20 +89,20 @@ example : Blocked (run Gen.Mux.asyncCfg State.init [.alloc 0, .register 0, .writ
 
 /-- Once the failure path has run to its end nobody is blocked: every call in flight has an error
 (or its earlier response) in its channel or has returned. -/
-theorem reader_done_no_blocked (cfg : Cfg) (hsbd : shutBeforeDrain cfg.failOrder = true) (hrbw : cfg.regBeforeWrite = true)
+theorem reader_done_no_blocked (cfg : Cfg) (hgo : goodOrder false false cfg.failOrder = true) (hrbw : cfg.regBeforeWrite = true)
     (s : State) (hs : Reachable cfg s) (g : Nat) (hf : s.reader = .finished g) (c : Nat) : ¬ Blocked s c := by
   intro hb
-  rcases no_orphan_waiter cfg hsbd hrbw s hs c hb with h | h
+  rcases no_orphan_waiter cfg hgo hrbw s hs c hb with h | h
   · exact h.2 (by simp [PostDrain, hf])
   · simp [heldEntries, hf, ids] at h
 
 /-- …the entries still in the map then belong to calls that have not written yet (their write will
-fail, `late_caller_fails`, and remove the entry), and the writer is shut. -/
-theorem reader_done_pending_unwritten (cfg : Cfg) (hsbd : shutBeforeDrain cfg.failOrder = true)
+fail, `late_caller_fails`, and remove the entry), and writes fail or registrations are refused. -/
+theorem reader_done_pending_unwritten (cfg : Cfg) (hgo : goodOrder false false cfg.failOrder = true)
     (hrbw : cfg.regBeforeWrite = true) (s : State) (hs : Reachable cfg s) (g : Nat) (hf : s.reader = .finished g) :
-    s.writerShut = true ∧ ∀ e ∈ s.pending, (s.calls e.2).wrote = false ∧ (s.calls e.2).reg = true :=
-  ⟨(hs.dinv hsbd hrbw).fin g hf,
-   fun e he => ⟨(hs.dinv hsbd hrbw).unwritten (by simp [PostDrain, hf]) e he, (hs.inv.1.ownP e he).2.2⟩⟩
+    guarded s = true ∧ ∀ e ∈ s.pending, (s.calls e.2).wrote = false ∧ (s.calls e.2).reg = true :=
+  ⟨(hs.dinv hgo hrbw).fin g hf,
+   fun e he => ⟨(hs.dinv hgo hrbw).unwritten (by simp [PostDrain, hf]) e he, (hs.inv.1.ownP e he).2.2⟩⟩
 
 /-- …and when no call is in progress the map is empty (`reader_done_pending_empty` of DESIGN.md). -/
 theorem quiescent_pending_empty (cfg : Cfg) (hrm : AllRemove cfg) (s : State) (hs : Reachable cfg s)
@@ -134,21 +135,45 @@ theorem failure_is_permanent (cfg : Cfg) (s : State) (hf : Failed s) (evs : List
   | nil => exact hf
   | cons e r ih => exact ih (step cfg s e) (failed_step cfg s e hf)
 
-/-- **Late caller.**  Shutdown-before-drain: once the reader has done its last drain, a call that is
-registered but has not written (in particular one that registered *after* the drain) cannot complete
-its write: the write step fails, and its cleanup returns the error. -/
-theorem late_caller_fails (cfg : Cfg) (hsbd : shutBeforeDrain cfg.failOrder = true) (hrbw : cfg.regBeforeWrite = true)
+/-- A call that has not registered yet, on a client where writes fail or registrations are refused:
+its next own steps (register, write, cleanup) end with an error, never in a blocking step, and leave
+the pending map as it was. -/
+theorem unregistered_call_fails (cfg : Cfg) (hrbw : cfg.regBeforeWrite = true) (hrm : cfg.writeErrRemoves = true)
+    (s : State) (hI : Inv cfg s) (hg : guarded s = true) (c : Nat)
+    (hpc : (s.calls c).pc = .active) (hreg : (s.calls c).reg = false) (hw : (s.calls c).wrote = false) :
+    (∃ o, (o = .connErr ∨ o = .writeErr) ∧
+      ((run cfg s [.register c, .write c, .cleanup c]).calls c).pc = .returned o) ∧
+    (run cfg s [.register c, .write c, .cleanup c]).pending = s.pending := by
+  have hnot : (s.calls c).id ∉ ids s.pending := by
+    intro hm
+    obtain ⟨d, hd⟩ := mem_ids.1 hm
+    have ho := hI.ownP _ hd
+    have := hI.inj d c ho.1 (by rw [hpc]; simp) ho.2.1
+    subst this; have h2 := ho.2.2; simp only at h2; rw [hreg] at h2; cases h2
+  have herase : List.filter (fun e => e.1 != (s.calls c).id) s.pending = s.pending := erase_of_not_mem hnot
+  by_cases hrc : s.regClosed = true
+  · refine ⟨⟨.connErr, Or.inl rfl, ?_⟩, ?_⟩ <;>
+      simp [run, step, canRegister, canWrite, hpc, hreg, hw, hrbw, hrc, setCall]
+  · have hshut : s.writerShut = true := by
+      simp only [guarded, Bool.or_eq_true] at hg
+      rcases hg with hg | hg
+      · exact hg
+      · exact absurd hg hrc
+    refine ⟨⟨.writeErr, Or.inr rfl, ?_⟩, ?_⟩ <;>
+      simp [run, step, canRegister, canWrite, hpc, hreg, hw, hrbw, hrc, hnot, hshut, removes, hrm, setCall,
+        Abandon.outcome, erase, herase]
+
+/-- **Late caller.**  Once the reader has done its last drain, a call that has not registered yet
+cannot get through: either its registration is refused (`closeAndDrain`) or its write fails
+(shutdown-before-drain); it returns an error within three own steps. (A call that registered before the
+drain was drained and has its error waiting, `no_orphan_waiter`.) -/
+theorem late_caller_fails (cfg : Cfg) (hgo : goodOrder false false cfg.failOrder = true) (hrbw : cfg.regBeforeWrite = true)
+    (hrm : cfg.writeErrRemoves = true)
     (s : State) (hs : Reachable cfg s) (hp : PostDrain s) (c : Nat)
-    (hpc : (s.calls c).pc = .active) (hw : (s.calls c).wrote = false) (hreg : (s.calls c).reg = true) :
-    ((step cfg s (.write c)).calls c).pc = .abandoning .writeErr ∧
-    ((run cfg s [.write c, .cleanup c]).calls c).pc = .returned .writeErr := by
-  have hshut := postDrain_shut (hs.dinv hsbd hrbw) hp
-  have hcw : canWrite cfg (s.calls c) = true := canWrite_iff.2 ⟨hpc, hw, by rw [hreg, hrbw]⟩
-  have h1 : step cfg s (.write c) = setCall s c { s.calls c with pc := .abandoning .writeErr } := by
-    simp [step, hcw, hshut]
-  refine ⟨by rw [h1]; simp, ?_⟩
-  simp only [run, List.foldl_cons, List.foldl_nil, h1]
-  simp [step, Abandon.outcome]
+    (hpc : (s.calls c).pc = .active) (hreg : (s.calls c).reg = false) (hw : (s.calls c).wrote = false) :
+    ∃ o, (o = .connErr ∨ o = .writeErr) ∧
+      ((run cfg s [.register c, .write c, .cleanup c]).calls c).pc = .returned o :=
+  (unregistered_call_fails cfg hrbw hrm s hs.inv.1 (postDrain_guarded (hs.dinv hgo hrbw) hp) c hpc hreg hw).1
 
 /-- The theorem fails for drain-before-shutdown: a call registers and writes between the two
 statements and then waits for ever although the failure path has finished. -/
@@ -161,33 +186,23 @@ theorem late_caller_hangs_if_drain_first :
   decide
 
 /-- **Later calls.**  On a client whose failure path has finished, a new call runs
-alloc → register → write (fails: writer shut) → cleanup and returns the write error; it never
-reaches a blocking step, and leaves the pending map as it found it. -/
-theorem later_calls_error (cfg : Cfg) (hsbd : shutBeforeDrain cfg.failOrder = true) (hrbw : cfg.regBeforeWrite = true)
+alloc → register (refused) or alloc → register → write (fails) → cleanup and returns an error; it
+never reaches a blocking step, and leaves the pending map as it found it. -/
+theorem later_calls_error (cfg : Cfg) (hgo : goodOrder false false cfg.failOrder = true) (hrbw : cfg.regBeforeWrite = true)
     (hrm : cfg.writeErrRemoves = true)
     (s : State) (hs : Reachable cfg s) (g : Nat) (hf : s.reader = .finished g) (c : Nat) (hc : (s.calls c).pc = .idle) :
-    ((run cfg s [.alloc c, .register c, .write c, .cleanup c]).calls c).pc = .returned .writeErr ∧
+    (∃ o, (o = .connErr ∨ o = .writeErr) ∧
+      ((run cfg s [.alloc c, .register c, .write c, .cleanup c]).calls c).pc = .returned o) ∧
     (run cfg s [.alloc c, .register c, .write c, .cleanup c]).pending = s.pending := by
-  have hI := hs.inv.1
-  have hshut := (hs.dinv hsbd hrbw).fin g hf
-  have hidle := hI.idleClean c hc
-  -- the fresh id is not in the map
-  have hfresh : s.nextId ∉ ids s.pending := by
-    intro hm
-    obtain ⟨d, hd⟩ := mem_ids.1 hm
-    have ho := hI.ownP _ hd
-    have := hI.fresh d ho.1
-    rw [ho.2.1] at this
-    exact Nat.lt_irrefl _ this
-  have hcont : (ids s.pending).contains s.nextId = false := by
-    cases hx : (ids s.pending).contains s.nextId
-    · rfl
-    · exact absurd (by simpa using hx) hfresh
-  have hwr : (s.calls c).wrote = false := hidle.2
-  simp only [run, List.foldl_cons, List.foldl_nil]
-  have herase : List.filter (fun e => e.1 != s.nextId) s.pending = s.pending := erase_of_not_mem hfresh
-  simp [step, hc, setCall, canRegister, canWrite, hrbw, hfresh, hshut, removes, hrm, Abandon.outcome,
-    erase, herase]
+  have hs1 := hs.step (.alloc c)
+  have h1 : step cfg s (.alloc c) = setCall { s with nextId := s.nextId + 1 } c { pc := .active, id := s.nextId } := by
+    simp [step, hc]
+  have hg : guarded (step cfg s (.alloc c)) = true := by
+    rw [h1]; simpa [guarded] using (hs.dinv hgo hrbw).fin g hf
+  have := unregistered_call_fails cfg hrbw hrm (step cfg s (.alloc c)) hs1.inv.1 hg c
+    (by rw [h1]; simp) (by rw [h1]; simp) (by rw [h1]; simp)
+  have hp : (step cfg s (.alloc c)).pending = s.pending := by rw [h1]; rfl
+  simpa [run, hp] using this
 
 example : (run Gen.Mux.wsCfg State.init (.readErr :: List.replicate 12 .failStep)).reader = .finished 0 := by
   decide
